@@ -188,6 +188,29 @@ def run(ctx, report):
         if k in seen:
             report.fail('C16:index-ambiguous:%s' % '/'.join(str(x) for x in k), 'two index entries with the same key', {'key': k})
         seen.add(k)
+    # the index file read independently: every entry's full key answers with the entry's own file and abbreviation (the first
+    # entry in file order when the key without tspc is shared), a key that is in the file under no entry answers None
+    import xml.etree.ElementTree as _et
+    file_entries = []
+    for v in _et.parse(os.path.join(mapser.MAPDIR, 'maps.xml')).getroot().iter('version'):
+        for m_ in v.iterfind('map'):
+            file_entries.append((v.get('icvn'), m_.get('vriic'), m_.get('fic'), m_.get('tspc'), (m_.text or ''), m_.get('abbr')))
+    report.count('index-entries-in-file', len(file_entries))
+    file_keys = set(e[:3] for e in file_entries)
+    for (icvn, vriic, fic, tspc, fname, abbr) in file_entries:
+        report.case(('index-entry', icvn, vriic, fic, tspc))
+        first = next(e for e in file_entries if e[:4] == (icvn, vriic, fic, tspc))
+        got = (idx.get_filename(icvn, vriic, fic, tspc), idx.get_abbr(icvn, vriic, fic, tspc))
+        if got != (first[4], first[5]):
+            report.fail('C16:index-key-answers-other-entry', 'index key %r answers %r, its entry in maps.xml names %r' % (
+                (icvn, vriic, fic, tspc), got, (first[4], first[5])), {'key': [icvn, vriic, fic, tspc]})
+        first3 = next(e for e in file_entries if e[:3] == (icvn, vriic, fic))
+        if idx.get_filename(icvn, vriic, fic) != first3[4]:
+            report.fail('C16:index-key-answers-other-entry:no-tspc', 'index key %r answers %r, the first such entry in maps.xml names %r' % (
+                (icvn, vriic, fic), idx.get_filename(icvn, vriic, fic), first3[4]), {'key': [icvn, vriic, fic]})
+        for near in ((icvn, vriic + 'A1', fic), (icvn, vriic + 'X', fic), (icvn, vriic[:-1], fic), (icvn, vriic[:-2], fic), (icvn, vriic.lower(), fic)):
+            if near not in file_keys and near[1] and idx.get_filename(*near) is not None:
+                report.fail('C16:index-answers-unlisted-key', 'key %r is not in maps.xml but answers %r' % (near, idx.get_filename(*near)), {'key': list(near)})
     queries = []
     for (icvn, vriic, fic, tspc) in keys:
         queries.append((icvn, vriic, fic, None))
